@@ -162,6 +162,51 @@ def obligations(n):
     return obs
 
 
+def conv_obligations():
+    """share-count conversions of the word toolkit, with distinct and with aliased operands (the AEAD code converts in
+    place): the value is kept and the surplus shares of the result are zero"""
+    obs = []
+    for n in (2, 3, 4):
+        for m in (2, 3, 4):
+            if n == m:
+                continue
+            fn = "x%d_from_x%d" % (n, m)
+            sur = lambda base: ["(WIn %d)" % (base + i) for i in range(8 * n, WB)]
+            obs.append((fn, "", [("dest", WB, True), ("src", WB, False)], ["dest", "src", None],
+                        lambda R, g, n=n, m=m: (prog([value(n, 0)] + ["(WIn %d)" % i for i in range(8 * n, WB)]),
+                                                prog([value(m, WB)] + ["(WConst 8 0)" for i in range(8 * n, WB)]))))
+            obs.append((fn, "_inplace", [("word", WB, True)], ["word", "word", None],
+                        lambda R, g, n=n, m=m: (prog([value(n, 0)] + ["(WIn %d)" % i for i in range(8 * n, WB)]),
+                                                prog([value(m, 0)] + ["(WConst 8 0)" for i in range(8 * n, WB)]))))
+    return obs
+
+
+def state_obligations():
+    """masked states (5 words of 32 bytes): randomize keeps every value and moves every share of every word by its own
+    fresh word; conversions between share counts (also in place) keep every value"""
+    obs = []
+    KW = 32
+    for n in (2, 3, 4):
+        def b_rand(R, g, n=n):
+            post, spec = [], []
+            for w in range(5):
+                post += [value(n, KW * w)] + [share(KW * w, j) for j in range(n)] + ["(WIn %d)" % (KW * w + i) for i in range(8 * n, KW)]
+                r = lambda j: g(R[w * (n - 1) + j - 1])
+                spec += [value(n, KW * w)] + [xor_all([share(KW * w, 0)] + [r(j) for j in range(1, n)])] + \
+                        ["(WXor %s %s)" % (share(KW * w, j), rotr(r(j), 11 * j)) for j in range(1, n)] + \
+                        ["(WIn %d)" % (KW * w + i) for i in range(8 * n, KW)]
+            return prog(post), prog(spec)
+        obs.append(("ascon_x%d_randomize" % n, "", [("state", 5 * KW, True)], ["state", None], b_rand))
+        for m in (2, 3, 4):
+            fn = "ascon_x%d_copy_from_x%d" % (n, m)
+            obs.append((fn, "", [("dest", 5 * KW, True), ("src", 5 * KW, False)], ["dest", "src", None],
+                        lambda R, g, n=n, m=m: (prog([value(n, KW * w) for w in range(5)]), prog([value(m, 5 * KW + KW * w) for w in range(5)]))))
+            if n != m:
+                obs.append((fn, "_inplace", [("state", 5 * KW, True)], ["state", "state", None],
+                            lambda R, g, n=n, m=m: (prog([value(n, KW * w) for w in range(5)]), prog([value(m, KW * w) for w in range(5)]))))
+    return obs
+
+
 def settle(s, build):
     """choose, per random word, how it enters (by concrete evaluation); -> (post, spec, description, cex)"""
     import itertools
@@ -278,6 +323,15 @@ def main(repo, gen):
             except (Stuck, KeyError) as ex:
                 print("MISSING kern_mword %s: %s" % (nm, ex)); report[nm] = {"title": full, "translated": False, "error": str(ex)}; continue
             emit(L, names, report, nm, full + " [c64]", s, build)
+    for (fn, suffix, regs, args, build) in conv_obligations():
+        full = "ascon_masked_word_" + fn
+        nm = "mw_c64_%s%s" % (fn, suffix)
+        regions = {name: {"size": size, "symbolic": True, "writable": wr} for (name, size, wr) in regs}
+        try:
+            s = llvmx.Exec(mod, "@" + full, [("ptr", a, 0) for a in args], regions, cut=False, rand_fns=rand).run()[0]
+        except (Stuck, KeyError) as ex:
+            print("MISSING kern_mword %s: %s" % (nm, ex)); report[nm] = {"title": full, "translated": False, "error": str(ex)}; continue
+        emit(L, names, report, nm, full + suffix.replace("_", " ") + " [c64]", s, build)
     L.append("Definition mword_c64_obls : list fn_obl := [%s]." % "; ".join(names))
     # --- x86-64 assembly word toolkit
     names = []
@@ -300,6 +354,16 @@ def main(repo, gen):
                 except (Stuck, KeyError) as ex:
                     print("MISSING kern_mword %s: %s" % (nm, ex)); report[nm] = {"title": full, "translated": False, "error": str(ex)}; continue
                 emit(L, names, report, nm, full + " [x86-64 asm]", s, build)
+        for (fn, suffix, regs, args, build) in conv_obligations():
+            full = "ascon_masked_word_" + fn
+            nm = "mw_x86_%s%s" % (fn, suffix)
+            regions = {name: {"size": size, "symbolic": True, "writable": wr} for (name, size, wr) in regs}
+            ri = {r: (("ptr", a, 0) if a else ("int", 0)) for r, a in zip(("rdi", "rsi", "rdx"), args)}
+            try:
+                s = asm_x86.X86(items, tables, full, ri, regions, rand_fns={"ascon_trng_generate_64"}).run()[0]
+            except (Stuck, KeyError) as ex:
+                print("MISSING kern_mword %s: %s" % (nm, ex)); report[nm] = {"title": full, "translated": False, "error": str(ex)}; continue
+            emit(L, names, report, nm, full + suffix.replace("_", " ") + " [x86-64 asm]", s, build)
     L.append("Definition mword_x86_obls : list fn_obl := [%s]." % "; ".join(names))
     # --- masked keys over the C64 word toolkit, KEY_SHARES = 2, 3, 4
     names = []
@@ -319,13 +383,29 @@ def main(repo, gen):
                         print("MISSING kern_mword %s: %s" % (nm, ex)); report[nm] = {"title": full, "translated": False, "error": str(ex)}; continue
                     emit(L, names, report, nm, "%s (KEY_SHARES=%d)" % (full, n), s, build)
     L.append("Definition mkey_obls : list fn_obl := [%s]." % "; ".join(names))
-    L.append("Definition mword_results : list (string * bool) := map (fun o => (fo_name o, fn_obl_ok o)) (mword_c64_obls ++ mword_x86_obls ++ mkey_obls).")
+    # --- masked states over the C64 word toolkit
+    names = []
+    with tempfile.TemporaryDirectory(prefix="kms") as td:
+        w = os.path.join(td, "mstate.c")
+        open(w, "w").write('#include "masking/ascon-masked-word-c64.c"\n#include "masking/ascon-masked-state.c"\n')
+        mod = llvmx.Module(llvmx.compile_ll(w, defs=["ASCON_FORCE_C64"], incs=incs))
+        for (fn, suffix, regs, args, build) in state_obligations():
+            nm = "ms_%s%s" % (fn[6:], suffix)
+            regions = {name: {"size": size, "symbolic": True, "writable": wr} for (name, size, wr) in regs}
+            try:
+                s = llvmx.Exec(mod, "@" + fn, [("ptr", a, 0) for a in args], regions, cut=False, rand_fns=rand, callbacks=cb).run()[0]
+            except (Stuck, KeyError) as ex:
+                print("MISSING kern_mword %s: %s" % (nm, ex)); report[nm] = {"title": fn, "translated": False, "error": str(ex)}; continue
+            emit(L, names, report, nm, fn + suffix.replace("_", " ") + " [c64]", s, build)
+    L.append("Definition mstate_obls : list fn_obl := [%s]." % "; ".join(names))
+    L.append("Definition mword_results : list (string * bool) := map (fun o => (fo_name o, fn_obl_ok o)) (mword_c64_obls ++ mword_x86_obls ++ mkey_obls ++ mstate_obls).")
     write_if_changed(os.path.join(gen, "MWord.v"), "\n".join(L) + "\n")
     O = ["(* GENERATED by tools/kern_mword.py: the obligations of Gen/MWord.v, checked by evaluation inside Coq *)",
          "From Coq Require Import List.", "From AsconV Require Import Sym.Wexpr Sym.Pipe Obl.FnObl Gen.MWord.",
          "Lemma mword_c64_ok : forallb fn_obl_ok mword_c64_obls = true. Proof. vm_compute. reflexivity. Qed.",
          "Lemma mword_x86_ok : forallb fn_obl_ok mword_x86_obls = true. Proof. vm_compute. reflexivity. Qed.",
-         "Lemma mkey_ok : forallb fn_obl_ok mkey_obls = true. Proof. vm_compute. reflexivity. Qed."]
+         "Lemma mkey_ok : forallb fn_obl_ok mkey_obls = true. Proof. vm_compute. reflexivity. Qed.",
+         "Lemma mstate_ok : forallb fn_obl_ok mstate_obls = true. Proof. vm_compute. reflexivity. Qed."]
     write_if_changed(os.path.join(gen, "MWordObl.v"), "\n".join(O) + "\n")
     kd = os.path.join(os.path.dirname(gen), "..", "build", "kern")
     os.makedirs(kd, exist_ok=True)
